@@ -27,6 +27,7 @@ RULE = ('Dispatch: EVERY operation sequence of depth <= D over a 23-operation al
         'global emitter and compared with the armed-flag reference after every operation. non-trivial = '
         'distinct histories with a last-callback registered before a plain one, an unconnect between two '
         'emits, nested silencing; progress histories with >= 2 completions or a reset after a completion.')
+RULE += ' Round 5: every second sender filter is a temporary object that only the registration refers to.'
 EXHAUSTIVE = {'quick': True, 'thorough': True}
 EXHAUSTIVE_SCOPE = {'quick': 'dispatch depth 4 (23 ops), progress depth 4 (15 ops)',
                     'thorough': 'dispatch depth 5, progress depth 6'}
